@@ -412,7 +412,7 @@ def gen_slru(r, cid, nops, opts):
     table = profile_table(prof, extra)
     var = opts.get("variant") or variant(r)
     if "hasher=default" in var:
-        var += " via=%s" % r.pick(["new", "builder", "statbuilder", "setters", "frombuilder"])
+        var += " via=%s" % r.pick(["new", "builder", "statbuilder", "setters", "frombuilder", "resetprot", "resetprob"])
     lines = ["case %d slru pcap=%d qcap=%d %s" % (cid, pcap, qcap, var)]
     has_alt = False
     hot = r.rng(1, U)
@@ -779,10 +779,11 @@ def gen_ctor_grid():
         for h in ("default", "zero", "zero ord=1"):
             add("arc size=%d keys=u64 hasher=%s" % (size, h), smoke)
     # every other public way of building the same configurations (default hasher): the model ignores `via=`
-    for via in ("builder", "statbuilder", "setters", "frombuilder"):
+    for via in ("builder", "statbuilder", "setters", "frombuilder", "resetprot", "resetprob"):
         for p in (0, 1, 2):
             for q in (0, 1, 3):
                 add("slru pcap=%d qcap=%d keys=u64 hasher=default via=%s" % (p, q, via), smoke)
+    for via in ("builder", "statbuilder", "setters", "frombuilder"):
         for size in (0, 1, 2, 3):
             add("arc size=%d keys=u64 hasher=default via=%s" % (size, via), smoke)
             for rr in ratios:
